@@ -292,6 +292,8 @@ class Engine:
                         out = Outcome("raise", exc=r.exc, node=r.node)
                     if fr is not None:
                         cx.write_logs.remove(wlog)
+                        if out.kind == "raise" and getattr(spec, "frame_on_raise", None) is not None:
+                            fr = spec.frame_on_raise(cx, st)       # what a refused call may have written
                         self._check_frame(cx, spec, st, fr, [w for w in wlog if w[0] == "local" or w[1] in preexisting])
                     cx.outcome = out
                     tag = spec.target.split(":")[-1]
